@@ -2,6 +2,7 @@ package world
 
 import (
 	"fmt"
+	"math"
 	"reflect"
 
 	"gonum.org/v1/gonum/mat"
@@ -99,21 +100,38 @@ func opExport(w *World, st *Step) execResult {
 		}
 		for k := range x.Cells {
 			e := expect(k)
-			ev, _ := vals.ToInt64(e.V)
+			// the element as a float64 (exact for every real element type incl. NaN, the infinities and signed zeros)
+			var ev float64
+			switch x := e.V.(type) {
+			case float64:
+				ev = x
+			case float32:
+				ev = float64(x)
+			default:
+				iv, _ := vals.ToInt64(e.V)
+				ev = float64(iv)
+				if u, ok := e.V.(uint64); ok {
+					ev = float64(u)
+				}
+				if u, ok := e.V.(uint); ok {
+					ev = float64(u)
+				}
+			}
 			w.Stats.Compared++
-			if got := m.At(k/cc, k%cc); got != float64(ev) {
+			if got := m.At(k/cc, k%cc); !(got == ev && math.Signbit(got) == math.Signbit(ev)) && !(got != got && ev != ev) {
 				return execResult{div: w.div(0, "export", fmt.Sprintf("ToMat64 element (%d,%d) is %v, expected %v", k/cc, k%cc, got, ev))}
 			}
 		}
 		// ToMat64 must not alias the tensor unless asked to: write into the matrix, tensor unchanged
 		before := w.snap()
+		orig00 := m.At(0, 0)
 		m.Set(0, 0, 77)
 		if d := snapDiff(before, w.snap()); len(d) > 0 {
 			return execResult{div: w.div(0, "export-aliases", fmt.Sprintf("writing into the ToMat64 copy changed the tensor: %v", d))}
 		}
 		// and back
 		m2 := mat.DenseCopyOf(m)
-		m2.Set(0, 0, float64(func() int64 { v, _ := vals.ToInt64(expect(0).V); return v }()))
+		m2.Set(0, 0, orig00)
 		back := tensor.FromMat64(m2, tensor.As(w.Cfg.D.T))
 		if !eqInts([]int(back.Shape()), x.Shape) {
 			return execResult{div: w.div(0, "export", fmt.Sprintf("FromMat64 shape %v, expected %v", back.Shape(), x.Shape))}
